@@ -41,6 +41,12 @@ Proof.
   destruct (b_class b); destruct (cfg_strict cfg); try discriminate; inversion H; reflexivity.
 Qed.
 
+Lemma decode_acceptable : forall cfg b b', decode cfg b = OkBody b' -> body_acceptable cfg b = true.
+Proof.
+  intros cfg b b' H. unfold decode in H. unfold body_acceptable.
+  destruct (b_class b); destruct (cfg_strict cfg); try discriminate H; reflexivity.
+Qed.
+
 (* ================================================================== *)
 (* the third step as a pure function                                    *)
 
@@ -769,6 +775,10 @@ Proof.
     apply Z.eqb_eq in E200.
     rewrite (readable_200 cfg sc c0 evs c sp r sent o Hsp Hr E200 Erf H).
     apply outcome_eqb_refl.
+  - (* no success from a body the mode rejects, fresh or replayed *)
+    unfold accepted_body_ok. destruct o as [b| |n]; try reflexivity.
+    destruct (finish_ok_inv _ _ _ _ _ _ _ Hf) as [r [_ [_ [_ [_ [_ Hd]]]]]].
+    apply (decode_acceptable cfg b b Hd).
   - (* plain *)
     unfold plain_ok. destruct (cfg_etag cfg) eqn:Het; [reflexivity|]. simpl.
     assert (Hps : phase_sent (st_calls (run_schedule cfg sc (init c0) evs) c) = Some sent)
